@@ -1,7 +1,9 @@
 """C11 — the solver query equals the path's constraints; refinement is exact.
 
-Obligations: T-refine, Props/C11.vo (theorems over the regenerated rules of solve.refine
-and f-strings of solve.dump, and over the model of sevm.Path), lint.
+Obligations: T-refine, T-pathcopy, Props/C11.vo (theorems over the regenerated rules of
+solve.refine and f-strings of solve.dump, over the model of one sevm.Path, and over the
+object-level model of several Path objects whose copy modes are regenerated from
+Path.branch / Path.extend_path), lint.
 Ties (every run):
   X-refine  real solve.refine on declaration / assert / near-miss lines at many widths
             vs the extracted refine_line; value of the real refined define-fun (z3) on
@@ -13,6 +15,15 @@ Ties (every run):
             cache_solver, plain and refined) re-parsed with z3 and compared with the
             conjunction of every constraint handed to the path (two unsat calls);
             dumped file text vs the model's dump_text.
+  X-heap    programs over SEVERAL real Path objects (appends / forks / activations /
+            slices / extensions on any object in any order, several objects created from
+            the same state; half of them following the exploration discipline of
+            SEVM.run) vs the extracted object-level model (conditions, pending, sliced,
+            assertions of the solver object, ids of every object); every object's
+            conditions and dumped queries vs the constraints accumulated on its own
+            lineage (independent Python rendering, cross-checked against the Coq
+            add_all / accumulated / lineages); on disciplined programs the real solver
+            of every running path vs the pure model run along its lineage.
 """
 import os
 import re
@@ -30,7 +41,8 @@ ASSUMPTIONS = [
     "z3.simplify preserves meaning, z3.is_true only holds of the literal true, equal dict keys (structural equality of hash-consed terms) denote the same formula -- hypotheses of C11_query_equals_constraints, visible in its statement",
     "z3's printer (Solver.to_smt2) prints the assertions it holds and z3's parser reads them back (the correspondence run re-parses every dumped file and checks equivalence with the path's constraints, as support)",
     "tracking literals |<id>| live in their own name space (decimal z3 ast ids; halmos symbols are never purely numeric)",
-    "the z3 solver shared by the paths of one exploration follows the push/pop discipline of Path.branch / Path.activate (the model records, per path, the assertions visible when that path is active)",
+    "the worklist of SEVM.run follows the exploration discipline stated as Model/PathHeapModel.sched_step (appends and forks come from the path running on the solver, the most recent waiting fork is activated next): hypothesis `sched_run ... = Some sc` of C11_solver_mirrors_running_path, visible in its statement; the theorems about conditions / queries (C11_paths_do_not_interfere, C11_every_path_query) do not need it",
+    "Python object semantics as modelled: dict / set / defaultdict mutation in place, .copy() = new container with the same values, deepcopy = new container with new sets (the copy modes are read off sevm.py by T-pathcopy and cross-checked by object identity on real Path objects)",
     "the extracted model and driver are faithful to the Coq definitions (extraction is trusted)",
 ]
 PARTIAL = "paths are built directly on sevm.Path objects with generated z3 conditions (L2 of DESIGN 4.2); no end-to-end `python -m halmos` run on fabricated build artifacts is part of this check"
@@ -1039,7 +1051,7 @@ def run(rep, tier):
 
     mark('refined_values')
     # ---- X-path
-    nscripts = 220 if tier == "quick" else 2000
+    nscripts = 220 if tier == "quick" else 6000
     scripts = list(CORPUS) + [gen_script(r, tier) for _ in range(nscripts)]
     if tier == "quick":
         impl = [impl_script(sc) for sc in scripts]
@@ -1149,7 +1161,7 @@ def run(rep, tier):
     mark("compare")
 
     # ---- X-heap: programs over several Path objects
-    nh = 160 if tier == "quick" else 2500
+    nh = 220 if tier == "quick" else 12000
     hscripts = list(HCORPUS) + [gen_hscript(r, tier) if k % 2 else gen_dfs_hscript(r, tier) for k in range(nh)]
     if tier == "quick":
         himpl = [impl_hscript(sc) for sc in hscripts]
@@ -1255,7 +1267,7 @@ def run(rep, tier):
         trusted_base=common.TRUSTED_BASE_COMMON + ["z3 (python bindings) as the reference parser / evaluator of the dumped SMT-LIB text in the correspondence run"],
         assumptions=ASSUMPTIONS,
         partial=PARTIAL,
-        rule="three case families: (1) refine_line: declaration lines f_evm_<op>_<N> for ops inside / outside the alternations, widths 256/264/512 and others incl. malformed (mismatching sorts, leading zeros, non-digits), other query lines; non-trivial = an f_evm_ declaration; (2) eval: the real refined define-fun applied by z3 to boundary operands (0, 1, 2^(N-1), 2^N-1, ...) and random ones at widths 256/264/512 and small widths; non-trivial = zero divisor or a negative (msb set) operand; (3) script: random lives of a sevm.Path (append / branch+activate with the parent continuing / slice / extend_path into a Path with a fresh solver) over generated z3 conditions with f_evm_ abstractions, arrays, duplicates and trivially true conditions; non-trivial = a condition was deduplicated or dropped as true, the solver holds a strict subset of conditions (sliced parent), refinement changed the query, or a branch happened; distinct by hash of the case",
+        rule="three case families: (1) refine_line: declaration lines f_evm_<op>_<N> for ops inside / outside the alternations, widths 256/264/512 and others incl. malformed (mismatching sorts, leading zeros, non-digits), other query lines; non-trivial = an f_evm_ declaration; (2) eval: the real refined define-fun applied by z3 to boundary operands (0, 1, 2^(N-1), 2^N-1, ...) and random ones at widths 256/264/512 and small widths; non-trivial = zero divisor or a negative (msb set) operand; (3) script: random lives of a sevm.Path (append / branch+activate with the parent continuing / slice / extend_path into a Path with a fresh solver) over generated z3 conditions with f_evm_ abstractions, arrays, duplicates and trivially true conditions; non-trivial = a condition was deduplicated or dropped as true, the solver holds a strict subset of conditions (sliced parent), refinement changed the query, or a branch happened; (4) hscript: programs over several Path objects (handle = creation index; append / branch / activate / slice / extend on any live object; every other program generated along the exploration discipline: one running path per solver, LIFO activation, finished states sliced and extended once or twice) plus a directed corpus (two transactions from one unsliced / sliced state, both sides of a fork running on, a frontier state extended three times, out-of-order activation); non-trivial = several objects created from one state, an object created from a state after a sibling (or the state) was appended to, or a fork; distinct by hash of the case",
     )
 
 
